@@ -10,6 +10,7 @@ import (
 	"os"
 	"os/exec"
 	"path/filepath"
+	"regexp"
 	"strings"
 	"sync"
 
@@ -29,6 +30,8 @@ type genRun struct {
 	races  int
 	raceRp string
 }
+
+var logStamp = regexp.MustCompile(`(?m)^\d{4}/\d\d/\d\d \d\d:\d\d:\d\d `)
 
 func shaHex(b []byte) string { h := sha256.Sum256(b); return hex.EncodeToString(h[:]) }
 
@@ -93,9 +96,10 @@ func c09(c *ctx) {
 		txt := gram.PrintGrammar(g, gram.PrintOpts{Package: "g", State: corpus.StateBlock, ActionCode: func(id int) string { return fmt.Sprintf("p.actN(%d)", id) }})
 		texts = append(texts, gtext{fmt.Sprintf("gen%d", i), txt, diag})
 	}
-	optSets := [][]string{nil, {"-inline", "-switch"}}
+	optSets := [][]string{nil, {"-inline", "-switch"}, {"-strict"}}
+	strictOnly := map[int]bool{2: true}
 	if c.env.Tier == "thorough" {
-		optSets = append(optSets, []string{"-noast"}, []string{"-switch"}, []string{"-strict", "-inline"})
+		optSets = append(optSets, []string{"-noast"}, []string{"-switch"}, []string{"-strict", "-inline"}, []string{"-strict", "-switch"})
 	}
 	gomax := []string{"1", "2", "4", "16"}
 	K := tierN(c, 10, 24)
@@ -107,8 +111,11 @@ func c09(c *ctx) {
 	var jobs []job
 	for ti := range texts {
 		for oi := range optSets {
-			if ti >= 7 && ti%2 == 1 && oi > 1 {
+			if ti >= 7 && ti%2 == 1 && oi > 1 && !texts[ti].diag {
 				continue
+			}
+			if strictOnly[oi] && !texts[ti].diag && ti >= 7 {
+				continue // -strict matters where there is something to warn about (and for the shipped grammars: nothing)
 			}
 			for k := 0; k < K; k++ {
 				jobs = append(jobs, job{ti, oi, k, false})
@@ -156,7 +163,8 @@ func c09(c *ctx) {
 			if guard.ExternalKill(0) {
 				externalKills.Add(1)
 			}
-			gr := genRun{stdout: shaHex(so.Bytes()), stderr: se.String()}
+			// (peg reports a failure through log.Fatal, which prefixes the wall-clock time: not part of the warnings)
+			gr := genRun{stdout: shaHex(so.Bytes()), stderr: logStamp.ReplaceAllString(se.String(), "")}
 			if err != nil {
 				gr.exit = -1
 				if ee, ok := err.(*exec.ExitError); ok {
